@@ -62,10 +62,47 @@ def one(ctx, tr, label):
         ctx.corr_break(ob, {"input": inp, "differs_on": diffs, "impl": {"outcome": io, "tables": res["tables"]}, "model": mf})
 
 
+def other_process_zone(ctx, n):
+    """The machine's own time zone is not an input: the same files loaded by a process whose local zone is
+    not UTC (TZ environment variable) must give the same dataset."""
+    import os
+    from . import cli
+    ob = "load in a process with another local time zone (TZ) = load here, table by table"
+    for _ in range(n):
+        tr = L.gen_triple(ctx.rng)
+        zone = ctx.rng.choice(["Asia/Jakarta", "America/New_York", "Australia/Lord_Howe", "Europe/London", "Pacific/Apia"])
+        data_tz = ctx.rng.choice(["UTC", "Africa/Lagos", "Etc/GMT-7"])
+        files = L.write_triple(ctx, tr, "tz")
+        db1, db2 = ctx.scratch("tz1.sqlite3"), ctx.scratch("tz2.sqlite3")
+        r1 = cli.load(db1, files, data_tz)
+        r2 = cli.run_subprocess(["load", db2, "-p", files[0], "-e", files[1], "-z", files[2], "--timezone", data_tz],
+                                extra_env={"TZ": zone})
+        d1, d2 = cli.dump(db1), cli.dump(db2)
+        for p_ in list(files) + [db1, db2]:
+            os.path.exists(p_) and os.remove(p_)
+        ctx.case(("tz", zone, data_tz, tr.describe()), r1[0] == "ok")
+        same = (r1[0] == "ok") == (r2[0] == "ok") and d1 == d2
+        ctx.obligation(ob, same)
+        if not same:
+            diff = [k for k in d1 if d1[k] != d2[k]]
+            first = None
+            if d1.get("grid_time") and d2.get("grid_time"):
+                first = [d1["grid_time"][0], d2["grid_time"][0]]
+            ctx.violation("impl-violation", "c%sHolds" % ctx.prop[1:], {
+                "input": {"files": tr.describe(), "timezone": data_tz, "process_TZ": zone},
+                "impl": {"status": [list(r1), list(r2)], "first_grid_rows": first},
+                "oracle": {"name": "c%sHolds" % ctx.prop[1:], "result": False,
+                           "witness": {"why": "the loaded dataset depends on the local time zone of the machine",
+                                       "process_TZ": zone, "tables_differing": diff}}})
+
+
 def run(ctx):
     n = 300 if ctx.tier == "quick" else 6000
     for i in range(n):
         one(ctx, L.gen_triple(ctx.rng), "random")
+    for i in range(1 if ctx.tier == "quick" else 20):
+        one(ctx, L.gen_triple(ctx.rng, long=True), "long")       # thousands of rows, dozens of gaps
+    other_process_zone(ctx, 4 if ctx.tier == "quick" else 60)
 
 
 def replay(ctx, doc):
